@@ -94,6 +94,8 @@ type FFGOpt struct {
 	Duplicates   bool
 	ByzExtra     int // extra Byzantine votes per checkpoint (equivocations, surround votes, unjustified sources)
 	NodeKey      int // key the node under test signs with itself (no messages are generated for it); -1 none
+	VotesLastDescending bool // deliver every block first, then the votes by target height DESCENDING: links are recorded before their sources are justified
+	SkipEpochPct int  // percent of checkpoints no honest validator votes for (forces skip links over them)
 	PreferLight  bool // honest validators vote for the competing checkpoint with the FEWEST descendants: votes move the best chain to the shorter branch
 }
 
@@ -167,8 +169,9 @@ func (t *Tree) GenScheduleFFG(r *ev.Rand, o FFGOpt) ([]Step, *Fin) {
 		}
 	}
 	for _, cp := range cps {
+		skipped := o.SkipEpochPct > 0 && r.Intn(100) < o.SkipEpochPct
 		for _, k := range t.ValidatorsOf(cp) {
-			if k < 0 || k == o.NodeKey {
+			if k < 0 || k == o.NodeKey || (skipped && k != o.Byzantine) {
 				continue
 			}
 			if k == o.Byzantine {
@@ -201,6 +204,15 @@ func (t *Tree) GenScheduleFFG(r *ev.Rand, o FFGOpt) ([]Step, *Fin) {
 				votes = append(votes, placed{pos[cp.Hash] + r.Intn(nb-pos[cp.Hash]+1), seq, g})
 				seq++
 			}
+		}
+	}
+	if o.VotesLastDescending {
+		for i := range votes {
+			votes[i].after = nb
+		}
+		sort.SliceStable(votes, func(i, j int) bool { return votes[i].v.Target.Height > votes[j].v.Target.Height })
+		for i := range votes {
+			votes[i].seq = i
 		}
 	}
 	sort.SliceStable(votes, func(i, j int) bool {
